@@ -5,7 +5,11 @@ from tools.check import MachineryError
 RULE = ("R: histories of 4 events from Lighthouse.tla on a real LightHouse/RemoteList/RemoteAllowList/Punchy/HostInfo: every source "
         "(answers of 2 lighthouses, host update, lighthouse punch request, learned from handshake, learned from roam, resolver "
         "results, calculated remotes; static_host_map at start-up) x every class (allowed, inside my overlay networks v4/v6, denied "
-        "globally, denied for the peer's range, marked bad, > 10 entries) x 3 peers, then a second source, block/delete, third source; "
+        "globally, denied for the peer's range, marked bad, > 10 entries; and, for the lighthouse-message sources, every IPv4 class "
+        "once more spelled as an IPv4-mapped entry of V6AddrPorts: allowed, inside my overlay networks, denied globally, denied for "
+        "the peer's range, denied for the sender's range only, marked bad) x 3 peers, then a second source, block/delete, third source; "
+        "a second node configuration spells static_host_map literals as IPv4-mapped addresses (start-up state, one event, one message "
+        "source); an address is judged by what it is (after unmapping) and observed destinations are compared after unmapping; "
         "after every event CopyAddrs/ForEach/keep-alive punches (handshake, probe), current remote (data) and scheduled punch "
         "datagrams are observed; T: seeded random 12-event sequences judged by the statement only; distinct = distinct histories")
 ASSUMPTIONS = [
@@ -20,11 +24,19 @@ ASSUMPTIONS = [
     "which an object-level harness does not reach (left to the whole-node destination monitor); the handshake path is represented by "
     "the two calls it makes (RemoteAllowList.AllowAll over the certificate's addresses, HostInfo.SetRemote)",
     "handshake and probe destinations are observed at RemoteList.CopyAddrs/ForEach (what handleOutbound and TryPromoteBest iterate)",
+    "an IPv4-mapped IPv6 spelling (::ffff:a.b.c.d) of an underlay address IS the IPv4 address a.b.c.d (that is what the socket sends "
+    "to): overlay-network membership, allow lists and bad marks apply to a.b.c.d. The spelling dimension applies to lighthouse "
+    "messages (reply, update, punch request) and to static_host_map literals; addresses learned from a handshake or a roam arrive "
+    "unmapped from the udp readers (udp_*.go) and resolver results are unmapped by the resolver loop (remote_list.go), "
+    "calculated remotes are computed from IPv4 masks: those sources are offered in the plain spelling only",
 ]
 
 
 def run(ctx):
     cfg = open(ctx.spec_dir() + '/Vec_Lighthouse_C36R.cfg').read()
+    cfg = cfg.replace('Salt = 0', 'Salt = %d' % (ctx.seed % 1000))
+    if 'Salt = %d' % (ctx.seed % 1000) not in cfg:
+        raise MachineryError('Vec_Lighthouse_C36R.cfg has no Salt constant')
     if not ctx.quick:
         cfg = cfg.replace('Thorough = FALSE', 'Thorough = TRUE')
     n = ctx.tlc_vectors('Lighthouse', 'Vec_Lighthouse_C36R_run.cfg', out='c36r.ndjson', cfgtext=cfg, timeout=1500, workers=2)
@@ -34,6 +46,13 @@ def run(ctx):
         raise MachineryError('harness failed:\n' + res['_stdout'][-3000:])
     ctx.take_mismatches(res)
     ctx.traces += n
+    # system level: destinations of handshakes, punches and data of complete nodes (spec/Discovery.tla, rule R5)
+    if not ctx.violations:
+        from tools.props import _disc
+        dres, tf = _disc.record(ctx)
+        ctx.traces += _disc.validate(ctx, tf, only=lambda v: v.startswith('R5'))
+        if not ctx.violations:
+            _disc.guards(ctx)
     drift = (res.get('extra') or {}).get('drift') or []
     if drift and not ctx.violations:
         raise MachineryError('the code differs from Lighthouse.tla\'s machine inside what the statement permits (specification '
@@ -41,13 +60,18 @@ def run(ctx):
     need = ['ev:reply', 'ev:punch', 'ev:learn', 'ev:roam', 'ev:dns', 'ev:calc', 'ev:update', 'ev:block', 'ev:delete',
             'dest:handshake', 'dest:data', 'T:reply', 'T:punch']
     need += ['dest:punch', 'dest:probe']
+    # the encoding dimension: every IPv4 class offered as an IPv4-mapped entry of V6AddrPorts by every message source
+    need += ['mapped:%s:%s' % (s, c) for s in ('reply', 'punch') for c in ('ok', 'inOverlay', 'deniedGlobal', 'deniedPeer')]
+    need += ['static:v4mapped-literals', 'ev:static']
+    need += ['mapped:update:%s' % c for c in ('ok', 'inOverlay', 'deniedGlobal', 'deniedPeer')]
     if not ctx.violations:      # a violation ends its history early; it is a verdict by itself
         ctx.require_actions(*need)
 
 
 META = {
     'category': 'model_checking',
-    'technique': 'TLA+ specification Lighthouse.tla: address classes, sources -> filters -> per-owner cache (<= 10) -> candidate set -> '
+    'technique': 'TLA+ specification Lighthouse.tla: address classes (properties of the address, not of its spelling: an IPv4 address may '
+                 'travel as V4AddrPort or as IPv4-mapped V6AddrPort / static literal), sources -> filters -> per-owner cache (<= 10) -> candidate set -> '
                  'destinations, with the invariants NoBadDest / Cap10 / StaticKept checked by TLC on every step of every emitted '
                  'history; histories replayed on the real objects; random histories judged by the statement',
     'text': 'TLC enumerates event histories in which every source offers every class of address, checks that in the specified design '
